@@ -28,6 +28,10 @@ open Proto
 
 def showStrs (l : List Str) : String := " ".intercalate (l.map encodeStr)
 
+/-- `name w1 w2 …` with single spaces and no trailing blank -/
+def sect (name : String) (ws : List String) : String :=
+  if ws.isEmpty then name else name ++ " " ++ " ".intercalate ws
+
 def showEval : EvalR → String
   | .ok s => "ok " ++ encodeStr s
   | .valueError => "ValueError"
@@ -36,7 +40,7 @@ def showEval : EvalR → String
 def showIniVal : IniVal → String
   | .skip => "skip"
   | .str s => "str " ++ encodeStr s
-  | .list l => "list " ++ showStrs l
+  | .list l => sect "list" (l.map encodeStr)
   | .error .interpolation => "error:interpolation"
   | .error .listEval => "error:listEval"
   | .error .unquote => "error:unquote"
@@ -200,7 +204,7 @@ def handle (args : List String) : String :=
   | ["evallist", s] =>
     match decodeStr s with
     | some text => (match evalList text with
-      | .ok l => "ok " ++ showStrs l | .error => "error" | .unmodelled => "unmodelled")
+      | .ok l => sect "ok" (l.map encodeStr) | .error => "error" | .unmodelled => "unmodelled")
     | none => "bad-op"
   | ["interp", s] =>
     match decodeStr s with
@@ -210,14 +214,14 @@ def handle (args : List String) : String :=
   | "tomlitem" :: "L" :: toks =>
     match toks.mapM parseScalar with
     | some l => (match tomlItem (.list l) with
-      | some v => (match v with | .str s => "str " ++ encodeStr s | .list l => "list " ++ showStrs l)
+      | some v => (match v with | .str s => "str " ++ encodeStr s | .list l => sect "list" (l.map encodeStr))
       | none => "unmodelled")
     | none => "bad-op"
   | ["tomlitem", tok] =>
     match parseScalar tok with
     | some v => (match tomlItem (.scalar v) with
       | some (.str s) => "str " ++ encodeStr s
-      | some (.list l) => "list " ++ showStrs l
+      | some (.list l) => sect "list" (l.map encodeStr)
       | none => "unmodelled")
     | none => "bad-op"
   | "tomlpick" :: n :: toks =>
@@ -265,7 +269,7 @@ def handle (args : List String) : String :=
       | [] => none) with
     | some (table, keys) =>
       let r := validate table (keys.map fun k => (k, FileVal.str []))
-      "keep " ++ showStrs (r.1.map (·.1)) ++ " | warn " ++ showStrs r.2
+      sect "keep" (r.1.map (encodeStr ·.1)) ++ " | " ++ sect "warn" (r.2.map encodeStr)
     | none => "bad-op"
   | "merge" :: n :: toks =>
     match (do
@@ -286,9 +290,11 @@ def handle (args : List String) : String :=
       let cliArgs := cli.map parseArg
       match mergeFiles table cliArgs files with
       | .ok argv =>
-        "ok argv " ++ showStrs (argv.map Arg.render) ++ " | warn " ++ showStrs (allWarnings table files) ++
-          " | eff " ++ " ".intercalate (table.map fun o => showEff (effective o argv))
-      | .error e => "error:" ++ showMergeErr e ++ " | warn " ++ showStrs (warningsUntilError table cliArgs files.reverse)
+        sect "ok argv" (argv.map fun a => encodeStr a.render) ++ " | " ++
+          sect "warn" ((allWarnings table files).map encodeStr) ++ " | " ++
+          sect "eff" (table.map fun o => showEff (effective o argv))
+      | .error e => "error:" ++ showMergeErr e ++ " | " ++
+          sect "warn" ((warningsUntilError table cliArgs files.reverse).map encodeStr)
     | none => "bad-op"
   | _ => "bad-op"
 
